@@ -9,8 +9,9 @@ P2Txt(ind)  == [t |-> "p2txt", ind |-> ind, n |-> 1, shape |-> "-", style |-> "-
 St(ind, shape, style, dir) == [t |-> "stmt", ind |-> ind, n |-> 0, shape |-> shape, style |-> style, dir |-> dir]
 
 Single == {"one", "expr", "semi", "cmt"}
+
 Multi  == {"ml2", "mlx2", "ml3", "cmp2", "cmp3", "deco3"}
-StyleOf(shape) == IF shape = "pair2" THEN {"c"} ELSE IF shape \in Single \cup {"tri3", "braw3", "badone", "trunc2"} THEN {"a"}
+StyleOf(shape) == IF shape = "pair2" THEN {"c"} ELSE IF shape \in Single \cup {"star"} \cup {"tri3", "braw3", "badone", "trunc2"} THEN {"a"}
                   ELSE IF shape \in {"cmp2", "cmp3", "deco3"} THEN {"a", "c", "t"} ELSE {"a", "c"}
 Stmts(inds, shapes, dirs) == {St(i, s, y, d) : i \in inds, s \in shapes, y \in {"a", "c", "t"}, d \in dirs} \ 
                              {b \in [t : {"stmt"}, ind : inds, n : {0}, shape : shapes, style : {"a", "c", "t"}, dir : dirs] : b.style \notin StyleOf(b.shape)}
@@ -27,6 +28,11 @@ C01_Blocks == Stmts({0}, Single \cup Multi \cup {"tri3", "pair2"}, {"none"})
               \cup Stmts({0}, {"one", "expr", "ml2", "cmp2", "deco3"}, {"first", "last"})
               \cup {St(0, "cmt", "a", "first"), St(0, "cmt", "a", "neg")}
               \cup {Txt(0, 1), Txt(0, 2), Blank}
+
+\* ---- C19: dump (programs as C01, smaller shape set, plus a star-import statement)
+C19_Blocks == Stmts({0}, {"one", "expr", "cmt", "ml2", "cmp2", "deco3", "tri3", "star"}, {"none"})
+              \cup Stmts({0}, {"one", "cmp2"}, {"last"})
+              \cup {St(0, "cmt", "a", "first"), Txt(0, 1), Txt(0, 2), Blank}
 
 \* ---- C14: malformed building blocks among good ones
 C14_Blocks == Stmts({0, 1}, {"one", "expr", "ml2", "cmp2", "tri3", "badone", "trunc2", "braw3"}, {"none"})
